@@ -25,7 +25,7 @@ ID = "C08"
 ENGINE = "clock"
 LEVEL = "exploration"
 TECHNIQUE = "deterministic simulation: seeded timer operations and clock advances on a real ReactorBase vs reference timer model"
-QUICK_RUNS = 14000
+QUICK_RUNS = 28000
 BATCH = 100
 RUN_WALL_LIMIT_S = 60   # a run takes milliseconds; the margin is for descheduling on a loaded host
 COMPONENTS = {"real": ["twisted.internet.base.ReactorBase.callLater/_insertNewDelayedCalls/_moveCallLaterSooner/timeout/runUntilCurrent/getDelayedCalls",
